@@ -38,6 +38,7 @@ pub fn dispatch(name: &str) -> bool {
         "h_c12::merged_arrays" => h_c12::merged_arrays(),
         "h_c12::maintenance" => h_c12::maintenance(),
         "h_c12::update_in_conflict" => h_c12::update_in_conflict(),
+        "h_c12::nested_arrays" => h_c12::nested_arrays(),
         "h_c12::resolve_array_conflict" => h_c12::resolve_array_conflict(),
         "h_hist::commit_graph" => h_hist::commit_graph(),
         "h_hist::time_travel" => h_hist::time_travel(),
